@@ -199,19 +199,27 @@ def message_cases(draw):
         if draw(st.booleans()):
             specs += draw(rx.message(big=False))
         driver = draw(st.sampled_from(["data", "recv", "data_frame"] if not skip else ["data", "data_frame"]))
-    return {"frames": specs, "driver": driver, "skip": skip, "mut": mut, "as_close": as_close, "text": data}
+    resume = False
+    if not as_close and draw(st.integers(0, 2)) == 0:
+        # the application catches the rejection and keeps receiving: the next messages must be judged on their own payload
+        resume = True
+        tail = draw(st.sampled_from([b"\xac", b"\x82\xac", b"ok", b"\xc3\xa9", b"\xa9", b""]))
+        specs.append({"fin": 1, "op": rm.TEXT, "p": tail, "key": None})
+        specs += draw(rx.message(big=False))
+    return {"frames": specs, "driver": driver, "skip": skip, "mut": mut, "as_close": as_close, "text": data, "resume": resume}
 
 
 def run_message(case):
     obs = Obs()
     specs, driver, skip = case["frames"], case["driver"], case["skip"]
-    events, ws, fs, frames, ends, wire = rx.run_stream(specs, [], driver, False, False, skip)
-    want, wwr = rx.expected_events(frames, ends, len(wire), driver, False, False, skip)
+    resume = bool(case.get("resume"))
+    events, ws, fs, frames, ends, wire = rx.run_stream(specs, [], driver, False, False, skip, resume=resume)
+    want, wwr = rx.expected_events(frames, ends, len(wire), driver, False, False, skip, resume=resume)
     valid = rm.utf8_wellformed(case["text"])
     if valid != rm.utf8_wellformed_cpython(case["text"]):
         raise HarnessError(f"reference recognisers disagree on {case['text'].hex()}")
     where = "close-reason" if case["as_close"] else "text"
-    tag = f"message|{where}|{'validation-off' if skip else ('wellformed' if valid else 'illformed:' + classify(case['text']))}"
+    tag = f"message|{where}|{'validation-off' if skip else ('wellformed' if valid else 'illformed:' + classify(case['text']))}{'|resume' if resume else ''}"
     if rx.compare(obs, events, want, tag):
         rx.compare_writes(obs, fs, wwr, tag)
     split_mb = False
@@ -224,7 +232,7 @@ def run_message(case):
     nt = (not valid) or split_mb or (case["mut"] != "none")
     nfr = sum(1 for s in specs if s["op"] in (rm.TEXT, rm.CONT))
     obs.cls = (f"msg:{where}", f"valid:{int(valid)}", f"mut:{case['mut']}", f"skip:{int(skip)}", driver, f"split_mb:{int(split_mb)}")
-    obs.nt = (where, case["text"], skip, driver, nfr) if nt else None
+    obs.nt = (where, case["text"], skip, driver, nfr, resume, len(specs)) if nt else None
     return obs
 
 
